@@ -30,9 +30,10 @@ def C01(rep, prog, tier):
 
 
 def _answers_reach_the_caller(rep, ex):
-    """An operator's answer is observed through single_inference and the manager's report: both must hand every query
-    its own answer (ROWS.key, ROWS.columns)."""
-    wrappers.rows(rep, ex, which=("single", "manager"), rules=("ROWS.key", "ROWS.columns", "TIMEOUT.row"))
+    """An operator's answer is observed through single_inference / multi_inference and the manager's report: they must
+    hand every query its own answer, asked in the mode of the state (ROWS.key, ROWS.columns, PAR.key, TIMEOUT.per-query:
+    the operator is called with the query, the state's mode and this query's deadline in their own roles)."""
+    wrappers.rows(rep, ex, which=("single", "worker", "multi", "manager"), rules=("ROWS.key", "ROWS.columns", "TIMEOUT.row", "TIMEOUT.per-query", "PAR.key"))
     wrappers.refuse_manager(rep, ex, rules=("ROWS.key",))
 
 
@@ -131,7 +132,16 @@ def C07(rep, prog, tier):
             # the infinity layer the extended branch works with is the last layer of the partition preprocessing stored
             mcsops.preprocess_flow(rep, ex, be, "LEX" if lex else "W")
             mcsops.w_entry(rep, ex, be, strict=False, extended=True, prefix="LEX" if lex else "W", n_objects=2 if lex else 1)
+            # below the infinity layer the extended answer is the recursion's: its obligations are part of "exact"
+            if lex:
+                mcsops.lex_rec(rep, ex, be)
+                mcsops.lex_ties(rep, ex, be)
+            else:
+                mcsops.w_rec(rep, ex, be)
+            if name == "z3":
+                enum.z3mcs(rep, ex, cls)
     part.check_all(rep, ex)
+    _encoding_and_enumeration(rep, ex)
     wrappers.manager_init(rep, ex, roles=("belief_base", "inference_system", "weakly"))
 
 
